@@ -91,6 +91,8 @@ type Interp struct {
 	bypass    map[string]int
 	spec      int
 	noMerge   bool
+	sum       *sumState
+	noSum     int
 	expectPanic bool
 }
 
@@ -115,6 +117,9 @@ func (it *Interp) choose(alts []*Term, exhaustive bool) int {
 			}
 		}
 		panic(specAbort{})
+	}
+	if it.sum != nil {
+		return it.sumChoose(alts)
 	}
 	// fast path: constant alternatives
 	nonFalse := -1
@@ -180,7 +185,7 @@ func (it *Interp) freeChoice(n int) int {
 	if n <= 1 {
 		return 0
 	}
-	if it.spec > 0 {
+	if it.spec > 0 || it.sum != nil {
 		panic(specAbort{})
 	}
 	if it.pos < len(it.prefix) {
@@ -204,6 +209,9 @@ func (it *Interp) assume(c *Term) {
 	if c.IsTrue() {
 		return
 	}
+	if it.sum != nil {
+		panic(specAbort{})
+	}
 	it.solver.Assert(c)
 	it.pcLen++
 }
@@ -220,7 +228,7 @@ func (it *Interp) concInt(t *Term) uint64 {
 	if t.IsConst() {
 		return t.cval
 	}
-	if it.spec > 0 {
+	if it.spec > 0 || it.sum != nil {
 		panic(specAbort{})
 	}
 	var excl []uint64
@@ -350,8 +358,8 @@ func (it *Interp) store(p *Ptr, v Value) {
 	if p.isNil() {
 		it.goPanicf("runtime error: invalid memory address or nil pointer dereference (store)")
 	}
-	if len(p.path) == 1 {
-		// fast path for arrays (in-place would break immutability of loaded arrays; copy)
+	if it.sum != nil && p.cell.id <= it.sum.startCell {
+		panic(specAbort{})
 	}
 	p.cell.v = setPath(p.cell.v, p.path, v)
 }
@@ -557,6 +565,11 @@ func (it *Interp) call(fn *ssa.Function, args []Value, binds []Value) (ret Value
 	if h := prefixIntercept(name); h != nil {
 		it.stubsUsed[name] = true
 		return h(it, fn, args)
+	}
+	if it.sum == nil && it.spec == 0 && it.noSum == 0 && it.h.summarizable(name) {
+		if v, ok := it.summarize(fn, args, binds); ok {
+			return v
+		}
 	}
 	it.depth++
 	if it.depth > 400 {
@@ -858,7 +871,16 @@ func (it *Interp) exec(fr *frame, ins ssa.Instruction) {
 			fr.env[x] = it.strIndex(b, it.get(fr, x.Index).(*Term))
 		case *MapV:
 			mt := under(x.X.Type()).(*types.Map)
-			v, ok := it.mapLookup(b, it.get(fr, x.Index), mt)
+			key := it.get(fr, x.Index)
+			if mv, found, ok := it.mapLookupMerged(b, key, mt); ok {
+				if x.CommaOk {
+					fr.env[x] = TupleV{mv, found}
+				} else {
+					fr.env[x] = mv
+				}
+				break
+			}
+			v, ok := it.mapLookup(b, key, mt)
 			if x.CommaOk {
 				fr.env[x] = TupleV{v, ts.Bool(ok)}
 			} else {
@@ -1546,6 +1568,36 @@ func (it *Interp) mapFind(m *MapV, k Value, mt *types.Map) int {
 	return r
 }
 
+// mapLookupMerged answers a read without forking when every stored value is a scalar term (or an
+// empty struct): value = ite chain over key equalities. ok=false result means "not applicable".
+func (it *Interp) mapLookupMerged(m *MapV, k Value, mt *types.Map) (Value, *Term, bool) {
+	if m.m == nil || len(m.m.entries) == 0 {
+		return nil, nil, false
+	}
+	ts := it.ts
+	zero := it.zero(mt.Elem())
+	var acc Value = zero
+	found := ts.Bool(false)
+	_, zt := zero.(*Term)
+	zs, zstruct := zero.(*StructV)
+	if !zt && !(zstruct && len(zs.f) == 0) {
+		return nil, nil, false
+	}
+	for i := len(m.m.entries) - 1; i >= 0; i-- {
+		e := m.m.entries[i]
+		eq := it.keyEq(e.k, k, mt.Key())
+		if zt {
+			ev, ok := e.v.(*Term)
+			if !ok || ev.op == OpNum {
+				return nil, nil, false
+			}
+			acc = ts.Ite(eq, ev, acc.(*Term))
+		}
+		found = ts.Or(found, eq)
+	}
+	return acc, found, true
+}
+
 func (it *Interp) mapLookup(m *MapV, k Value, mt *types.Map) (Value, bool) {
 	i := it.mapFind(m, k, mt)
 	if i < 0 {
@@ -1555,6 +1607,9 @@ func (it *Interp) mapLookup(m *MapV, k Value, mt *types.Map) (Value, bool) {
 }
 
 func (it *Interp) mapUpdate(m *MapV, k, v Value, mt *types.Map) {
+	if it.sum != nil && m.m.id <= it.sum.startCell {
+		panic(specAbort{})
+	}
 	i := it.mapFind(m, k, mt)
 	if i < 0 {
 		m.m.entries = append(m.m.entries, mapEntry{k, v})
@@ -1566,6 +1621,9 @@ func (it *Interp) mapUpdate(m *MapV, k, v Value, mt *types.Map) {
 func (it *Interp) mapDelete(m *MapV, k Value, mt *types.Map) {
 	if m.m == nil {
 		return
+	}
+	if it.sum != nil && m.m.id <= it.sum.startCell {
+		panic(specAbort{})
 	}
 	i := it.mapFind(m, k, mt)
 	if i < 0 {
@@ -2040,4 +2098,174 @@ func (it *Interp) specRegion(fr *frame, b, pred *ssa.BasicBlock, g *Term, J *ssa
 		}
 	}
 	return false
+}
+
+// ---------------------------------------------------------------- summaries of pure callees
+
+type sumState struct {
+	prefix    []int
+	pos       int
+	trace     []int
+	alts      []int // number of non-false alternatives at each decision of the trace (for scheduling)
+	sched     [][]int
+	guard     *Term
+	startCell int
+}
+
+func (it *Interp) sumChoose(alts []*Term) int {
+	st := it.sum
+	var live []int
+	for i, a := range alts {
+		if a.IsTrue() {
+			return i
+		}
+		if !a.IsFalse() {
+			live = append(live, i)
+		}
+	}
+	if len(live) == 0 {
+		panic(specAbort{})
+	}
+	if len(live) == 1 {
+		st.guard = it.ts.And(st.guard, alts[live[0]])
+		return live[0]
+	}
+	var k int
+	if st.pos < len(st.prefix) {
+		k = st.prefix[st.pos]
+	} else {
+		k = live[0]
+		for _, o := range live[1:] {
+			np := append(append([]int{}, st.trace...), o)
+			st.sched = append(st.sched, np)
+		}
+	}
+	st.pos++
+	st.trace = append(st.trace, k)
+	st.guard = it.ts.And(st.guard, alts[k])
+	return k
+}
+
+// summarize executes a side-effect-free callee on all of its syntactic paths and merges the results
+// into one ite term, so that the callee's internal branching does not multiply the caller's paths.
+// Falls back (ok=false) when the callee writes to pre-existing memory, panics, needs a solver
+// decision that cannot be deferred, or returns something that cannot be merged.
+func (it *Interp) summarize(fn *ssa.Function, args []Value, binds []Value) (res Value, ok bool) {
+	type outcome struct {
+		g *Term
+		v Value
+	}
+	var outs []outcome
+	work := [][]int{nil}
+	startCell := it.cellID
+	saveTop := it.top
+	saveSteps := it.steps
+	saveDepth := it.depth
+	defer func() {
+		it.sum = nil
+		it.top = saveTop
+		it.depth = saveDepth
+		if r := recover(); r != nil {
+			switch x := r.(type) {
+			case specAbort, *goPanic:
+				res, ok = nil, false
+				it.steps = saveSteps
+				return
+			case *pathEnd:
+				if x.kind == "unsupported" || x.kind == "unwind" {
+					res, ok = nil, false
+					return
+				}
+			}
+			panic(r)
+		}
+	}()
+	for len(work) > 0 {
+		if len(outs) > 512 {
+			panic(specAbort{})
+		}
+		prefix := work[len(work)-1]
+		work = work[:len(work)-1]
+		st := &sumState{prefix: prefix, guard: it.ts.Bool(true), startCell: startCell}
+		it.sum = st
+		v := it.callPlain(fn, args, binds)
+		outs = append(outs, outcome{st.guard, v})
+		work = append(work, st.sched...)
+		it.sum = nil
+	}
+	acc := outs[len(outs)-1].v
+	for i := len(outs) - 2; i >= 0; i-- {
+		m, ok := it.mergeValues(outs[i].g, outs[i].v, acc)
+		if !ok {
+			return nil, false
+		}
+		acc = m
+	}
+	return acc, true
+}
+
+func (it *Interp) mergeValues(g *Term, a, b Value) (Value, bool) {
+	switch x := a.(type) {
+	case nil:
+		return nil, b == nil
+	case *Term:
+		y, ok := b.(*Term)
+		if !ok || x.w != y.w || x.op == OpNum || y.op == OpNum {
+			return nil, false
+		}
+		return it.ts.Ite(g, x, y), true
+	case TupleV:
+		y, ok := b.(TupleV)
+		if !ok || len(x) != len(y) {
+			return nil, false
+		}
+		r := make(TupleV, len(x))
+		for i := range x {
+			m, ok := it.mergeValues(g, x[i], y[i])
+			if !ok {
+				return nil, false
+			}
+			r[i] = m
+		}
+		return r, true
+	case *StructV:
+		y, ok := b.(*StructV)
+		if !ok || len(x.f) != len(y.f) {
+			return nil, false
+		}
+		r := make([]Value, len(x.f))
+		for i := range x.f {
+			m, ok := it.mergeValues(g, x.f[i], y.f[i])
+			if !ok {
+				return nil, false
+			}
+			r[i] = m
+		}
+		return &StructV{r}, true
+	case *ArrayV:
+		y, ok := b.(*ArrayV)
+		if !ok || len(x.e) != len(y.e) {
+			return nil, false
+		}
+		r := make([]Value, len(x.e))
+		for i := range x.e {
+			m, ok := it.mergeValues(g, x.e[i], y.e[i])
+			if !ok {
+				return nil, false
+			}
+			r[i] = m
+		}
+		return &ArrayV{r}, true
+	}
+	if sameKey(a, b) {
+		return a, true
+	}
+	return nil, false
+}
+
+// callPlain enters fn without consulting the summary table again.
+func (it *Interp) callPlain(fn *ssa.Function, args []Value, binds []Value) Value {
+	it.noSum++
+	defer func() { it.noSum-- }()
+	return it.call(fn, args, binds)
 }
